@@ -48,6 +48,21 @@ CHECKS = {
          "DESIGN.md section 4 (C13) and section 12",
          "colliding keys: revision 0 only, versions not compared, check_vhash off; after the first anomaly of a colliding key the model is re-synchronised with the observation and later anomalies of that key count as follow-ups",
          "reference-model monitor with same-hash key groups (hash override), wrong-read classifier"),
+ "C08": ("exploration",
+         "Tree level: random set/tombstone/remove histories on HTree with leaf populations crossing the 100-item and 256-key thresholds; every listing along sampled key paths (bucket root to 16 digits) is compared with an independent recomputation from the final content, with a second tree reaching the same content by another history, and with a dump+load copy. Store level: triples of real stores driven to one final content by different histories (permutation, redundant overwrites, delete-then-reset at a forced equal version, restart with tree dump loaded / everything rebuilt, GC passes) listed through 'get @prefix' including the upper tree over bucket roots.",
+         "DESIGN.md section 4 (C08)",
+         "trusted: ref/merkle.go (hash, count and listing rules written from the documented behaviour), ref.KeyHash/ValueHash (validated by C16)",
+         "differential runtime oracle: reference recomputation + history-independence comparison of real trees/stores"),
+ "C10": ("exploration",
+         "Store level: values on both sides of every compression decision threshold (record size 256, 10 KB probe, ratio, sniffed audio types, client-compressed flag, up to 4 MB) set and read back from the write buffer, the flushed file and after restarts with rebuilt indexes, judged by the reference map; the stored record is inspected to report which way the server decided. Codec level: C<->Go round trips in both directions. Hostile input: random, mutated, truncated and self-consistent-header streams fed to both safe decompressors in an asan-instrumented child (recover mode, every report classified).",
+         "DESIGN.md section 4 (C10)",
+         "asan instruments quicklz.c; QuickLZ's word-wise source fetch (fast_read, <= 3 bytes past the source) is classified informational, every other report is a violation; hostile claimed sizes capped at 16 MB",
+         "reference-model monitor + cross-implementation differential + AddressSanitizer on hostile inputs"),
+ "C15": ("exploration",
+         "Real key hash with 1/16/256 buckets and served patterns none/one/subset/all: per-key before/after inventory (sha1) of every file below the home directory, independent scanner finds the record in the expected bucket directory, unserved buckets store nothing and miss, listings above/at/below bucket depth equal the reference aggregate of the served buckets, read-back after restart.",
+         "DESIGN.md section 4 (C15)",
+         "trusted: ref.KeyHash/BucketOf, ref/merkle.go",
+         "file-system inventory monitor + reference routing oracle"),
 }
 
 NOT_YET = {
